@@ -15,6 +15,6 @@ echo "demo with change:    $(PYTHONPATH=$COPY timeout 600 /venv/bin/python _seed
 echo "suite with change:   $(PYTHONPATH=$COPY /venv/bin/python -m pytest -q -p no:cacheprovider tests 2>&1 | tail -1)"
 cd /verif
 for id in "$@"; do
-  s=$(date +%s); out=$(VERIF_REPO="$COPY" ./check $id quick 2>&1); rc=$?; e=$(date +%s)
+  s=$(date +%s); out=$(HV_EVIDENCE_DIR=/verif/out/evidence-mutants VERIF_REPO="$COPY" ./check $id quick 2>&1); rc=$?; e=$(date +%s)
   echo "check $id rc=$rc $((e-s))s :: $(echo "$out" | grep -m2 '^violation:' | tr '\n' '|' | cut -c1-300) $(echo "$out" | tail -1 | cut -c1-160)"
 done
